@@ -212,3 +212,8 @@ func (p *Pipe) Drain(n int) {
 		}
 	})
 }
+
+// SetWindow changes the bound on unconsumed bytes (0 = unbounded).
+func (p *Pipe) SetWindow(n int) {
+	vs.BlockOn(p.WObj(), "peer.SetWindow", nil, func() { p.Window = n })
+}
